@@ -1501,6 +1501,262 @@ def run_lvalue_oracle(ctx, corr, N):
                                     'input': desc, 'expected': t['want'], 'got': rc_c[0].get(n)})
             return
 
+# ------------------------------------------------------------------ leg (b5): lvalues other than variables anywhere in an expression
+
+def sub_names(ctext, names):
+    """replace the placeholder variables v<i> of a C text by the lvalue that designates object i"""
+    return re.sub(r'\bv(\d+)\b', lambda mm: names[int(mm.group(1))], ctext)
+
+def gen_pure_lvalue(rng, n, et, idxvars):
+    """a side-effect-free lvalue over the bases p (model variable n), q (n+1), s (n+2), a (n+3), sa (n+4):
+    (C text, prefix text, object type); subscripts are literals or one of the scalar variables `idxvars`"""
+    ssz = lv_layout('LS0')[0]
+    esz = SIZE[et]
+    def idx():
+        if idxvars and rng.random() < 0.4:
+            j = rng.choice(idxvars)
+            return f'v{j}', f'V {j}'
+        c = rng.randrange(0, 4)
+        t = rng.choice(['i32', 'i64', 'u32', 'u64'])
+        return f'{c}{LITSUF[t]}', f'L {t} {c}'
+    def members(base_c, base_p):
+        path, t = gen_member_path(rng, 'LS0')
+        pfx = base_p
+        for _, o in path:
+            pfx = f'LM {o} {pfx}'
+        return base_c + ''.join('.' + m for m, _ in path), pfx, t
+    k = rng.randrange(9)
+    if k == 0:
+        return members('s', f'LV {n + 2}')
+    if k == 1:
+        path, t = gen_member_path(rng, 'LS0')
+        pfx = f'LD {n}'
+        for _, o in path:
+            pfx = f'LM {o} {pfx}'
+        return 'p->' + '.'.join(m for m, _ in path), pfx, t
+    if k == 2:
+        return members('(*p)', f'LD {n}')
+    if k == 3:
+        c, pc = idx()
+        return f'a[{c}]', f'LI {n + 3} {esz} {pc}', et
+    if k == 4:
+        c, pc = idx()
+        return f'q[{c}]', f'LP {n + 1} {esz} {pc}', et
+    if k == 5:
+        return '*q', f'LD {n + 1}', et
+    if k == 6:
+        c, pc = idx()
+        return members(f'sa[{c}]', f'LI {n + 4} {ssz} {pc}')
+    if k == 7:
+        c, pc = idx()
+        return members(f'p[{c}]', f'LP {n} {ssz} {pc}')
+    c, pc = idx()
+    return f'*(q + {c})', f'LP {n + 1} {esz} {pc}', et
+
+def check_lvalue_nests(ctx, corr, N):
+    """Model/C01ExprA `compileA` (object of C01_value_lvalues): generated expression nests (pure, with , = op= ++ --, with && || ?:)
+    whose leaves are objects reached through `s.m…`, `p->m…`, `(*p).m`, `a[c]`, `q[c]`, `*q`, `sa[c].m…`, `p[c].m…`, `*(q + c)`
+    (subscripts literal or a scalar variable) besides plain variables: as operands, assigned, compound-assigned, incremented.
+    Lines (instructions, labels, jumps; exact label numbers), hidden temporaries and the label counter must be the model's."""
+    rng = ctx.rng
+    cases, src = [], lv_struct_decls()
+    for k in range(N):
+        n = rng.randrange(1, 4)
+        vt = [rng.choice(TYS) for _ in range(n)]
+        et = rng.choice(TYS)
+        M = rng.randrange(1, 4)
+        objs_ = [gen_pure_lvalue(rng, n, et, list(range(n)) if rng.random() < 0.5 else []) for _ in range(M)]
+        otys = vt + [t for _, _, t in objs_]
+        e = gen_tie(rng, rng.randrange(1, 5), otys, effects=(k % 2 == 1), jumps=(k % 4 >= 2))
+        # object index j >= n of the expression is model variable j + 5
+        e_model = shift_from(e, n, 5)
+        names = [f'v{i}' for i in range(n)] + [f'({c})' for c, _, _ in objs_]
+        ret = rng.choice(TYS)
+        name = f'h{k}'
+        params = ', '.join(['struct LS0 *p', f'{CNAME[et]} *q'] + [f'{CNAME[x]} v{i}' for i, x in enumerate(vt)])
+        ctext = sub_names(tie_c(e), names)
+        src += f'{CNAME[ret]} {name}({params}) {{ struct LS0 s; {CNAME[et]} a[5]; struct LS0 sa[3]; &s; &a; &sa; return {ctext}; }}\n'
+        cases.append((name, vt, et, ret, objs_, e_model, count_labels(e)))
+    path = os.path.join(ctx.scratch, 'lvnest.c')
+    open(path, 'w').write(src)
+    rc_, asm, err = sh([ctx.cc, '-S', '-o', '-', path], timeout=300)
+    if rc_ != 0:
+        corr.violations.append({'what': 'chibicc -S fails on functions returning an expression over member / subscript / dereference lvalues',
+                                'input': src[:800], 'expected': 'compiles', 'got': err[-300:]})
+        return
+    nlab = {c[0]: c[6] for c in cases}
+    c0, ctr = {}, 1
+    for nm in re.findall(r'^(h\d+):$', asm, re.M):
+        if nm in nlab and nm not in c0:
+            c0[nm] = ctr
+            ctr += nlab[nm]
+    req, live = '', []
+    for name, vt, et, ret, objs_, e_model, nl in cases:
+        lines = fn_text(asm, name)
+        np_ = 2 + len(vt)
+        if lines is None or len(lines) < 4 + np_ + 3 or name not in c0:
+            corr.disagreements.append({'kind': 'asm-text', 'spec': name, 'note': 'function not found in chibicc -S output'})
+            return
+        offs, locs = [], []
+        for l in lines[4:4 + np_]:
+            mm = re.fullmatch(r'\s*mov %\w+, (-?\d+)\(%rbp\)', l)
+            if not mm:
+                corr.disagreements.append({'kind': 'asm-text', 'spec': name, 'note': 'prologue of unknown shape: ' + l})
+                return
+            offs.append(int(mm.group(1)))
+        for l in lines[4 + np_:4 + np_ + 3]:
+            mm = re.fullmatch(r'\s*lea (-?\d+)\(%rbp\), %rax', l)
+            if not mm:
+                corr.disagreements.append({'kind': 'asm-text', 'spec': name, 'note': 'address-of statement of unknown shape: ' + l})
+                return
+            locs.append(int(mm.group(1)))
+        body = body_instrs(lines[4 + np_ + 3:])
+        temps = sorted({int(x) for i in body for x in re.findall(r'(-?\d+)\(%rbp\)', i)} - set(offs) - set(locs))
+        n = len(vt)
+        tys = vt + ['u64', 'u64', 'i8', et, 'i8'] + [t for _, _, t in objs_]
+        vo = offs[2:] + offs[:2] + locs + [0] * len(objs_)
+        table = ' ; '.join([f'LV {i}' for i in range(n + 5)] + [pfx for _, pfx, _ in objs_])
+        req += (f"{','.join(tys)} {','.join(str(x) for x in vo)} {','.join(str(x) for x in temps) or '-'} {c0[name]} | {table} | "
+                f"CAST {ret} {rp(e_model)}\n")
+        live.append((name, body, len(temps), nl))
+    model = ctx.driver('compilea', req).splitlines()
+    if len(model) != len(live):
+        corr.disagreements.append({'kind': 'driver', 'note': f'drv_c01 compilea answered {len(model)} lines for {len(live)} functions'})
+        return
+    for (name, got, ntemps, nl), m in zip(live, model):
+        corr.evaluations += 1
+        w = m.split(' ', 6)
+        cline = [l for l in src.splitlines() if f' {name}(' in l][0]
+        if w[0] != 'ok' or len(w) < 7:
+            corr.disagreements.append({'kind': 'asm-text', 'c': cline, 'note': 'compileA does not handle the expression: ' + m[:80]})
+            return
+        corr.count('lvalue-nest-tie:' + ('side conditions hold' if w[4] == '1' and w[5] == '1' else 'text only'))
+        corr.nontrivial.add('lvnest:' + hashlib.sha1(cline.encode()).hexdigest())
+        want = w[6].split(';;')
+        bad = None
+        if got != want:
+            j = next((i for i in range(min(len(got), len(want))) if got[i] != want[i]), min(len(got), len(want)))
+            bad = {'first_difference_at': j, 'chibicc': got[j:j + 4], 'model': want[j:j + 4], 'first_label_number': c0[name],
+                   'note': 'Model/C01ExprA compileA (gen_expr over objects reached through member / subscript / dereference lvalues) does not '
+                           'print what chibicc -S prints'}
+        elif ntemps != int(w[2]):
+            bad = {'note': f'hidden temporaries: chibicc uses {ntemps}, the model {w[2]}'}
+        elif int(w[3]) != c0[name] + nl:
+            bad = {'note': f'label counter: the model leaves count() at {w[3]}, expected {c0[name] + nl}'}
+        if bad:
+            bad.update({'kind': 'asm-text', 'c': cline})
+            corr.disagreements.append(bad)
+            return
+    corr.extra['lvalue_nests_compared_with_chibicc_S'] = len(live)
+
+def shift_from(e, n, k):
+    """add k to every variable index >= n"""
+    f = lambda i: i + k if i >= n else i
+    if e[0] == 'V':
+        return ('V', f(e[1]))
+    if e[0] in ('SET', 'PREINC', 'PREDEC', 'POSTINC', 'POSTDEC'):
+        return (e[0], f(e[1])) + tuple(shift_from(x, n, k) if isinstance(x, tuple) else x for x in e[2:])
+    if e[0] == 'OPSET':
+        return ('OPSET', e[1], f(e[2])) + tuple(shift_from(x, n, k) if isinstance(x, tuple) else x for x in e[3:])
+    return tuple(shift_from(x, n, k) if isinstance(x, tuple) else x for x in e)
+
+def run_lvalue_nests(ctx, corr, N):
+    """generated expression nests whose objects are the scalars v0..v2, the 12 scalar members of `struct LS0 s` (written `s.m`,
+    `p->m` or `(*p).m` with p = &s) and the elements of `a[4]` (written `a[k]`, `q[k-1]`, `*(q + k-1)` or `*q` with q = a + 1),
+    evaluated by the Spec on the store of all objects, compiled by chibicc and gcc and run: value, sizeof and all objects
+    afterwards must agree three ways."""
+    rng = ctx.rng
+    leaves = lv_leaves('LS0')
+    tests = []
+    for _ in range(N):
+        vt = [rng.choice(TYS) for _ in range(3)]
+        et = rng.choice(TYS)
+        tys = vt + [t for _, _, t in leaves] + [et] * 4
+        vals = [rng.choice(boundary(t)) if rng.random() < 0.45 else rng.randint(max(tmin(t), -40), min(tmax(t), 40)) for t in tys]
+        # the expression uses a handful of the objects
+        pick = sorted(rng.sample(range(len(tys)), rng.randrange(2, 6)))
+        sub_t = [tys[i] for i in pick]
+        mod = {'done': set()}
+        e = remove_conflicts(gen_nest(rng, rng.randrange(1, 6), sub_t, set(), mod), mod['done'])
+        e = rename_vars(e, pick)
+        names = [f'v{k}' for k in range(3)]
+        for pth, _, _ in leaves:
+            names.append(rng.choice([f'(s.{pth})', f'(p->{pth})', f'((*p).{pth})']))
+        for k in range(4):
+            forms = [f'(a[{k}])', f'(q[{k - 1}])', f'(*(q + {k - 1}))'] + (['(*q)'] if k == 1 else [])
+            names.append(rng.choice(forms))
+        tests.append({'tys': tys, 'vals': vals, 'vt': vt, 'et': et, 'e': e, 'names': names})
+    env = lambda t: f"{','.join(sty(x) for x in t['tys'])} {','.join(str(v) for v in t['vals'])}"
+    out = ctx.driver('eval', ''.join(f"{env(t)} | {rp(t['e'])}\n" for t in tests)).splitlines()
+    if len(out) != len(tests):
+        corr.disagreements.append({'kind': 'driver', 'note': 'drv_c01 eval (lvalue nests): wrong number of answers'})
+        return
+    final = []
+    for t, o in zip(tests, out):
+        if not o.startswith('ok '):
+            corr.count('skipped_ub')
+            continue
+        w = o.split()
+        t['want'] = [str(int(w[2]) & M64), str(SIZE[w[1]])] + [str(int(x) & M64) for x in w[3].split(',')]
+        final.append(t)
+    leaves_c = [pth for pth, _, _ in leaves]
+    body = ''
+    for n, t in enumerate(final):
+        decl = ''.join(f'  {CNAME[ty]} v{k} = ({CNAME[ty]}){clit(v)};\n' for k, (ty, v) in enumerate(zip(t['vt'], t['vals'][:3])))
+        decl += '  struct LS0 s;\n' + ''.join(f'  s.{pth} = ({CNAME[ty]}){clit(v)};\n'
+                                               for (pth, _, ty), v in zip(leaves, t['vals'][3:3 + len(leaves)]))
+        av = t['vals'][3 + len(leaves):]
+        decl += f"  {CNAME[t['et']]} a[4]; " + ' '.join(f"a[{k}] = ({CNAME[t['et']]}){clit(v)};" for k, v in enumerate(av)) + '\n'
+        decl += f"  struct LS0 *p = &s; {CNAME[t['et']]} *q = a + 1;\n"
+        ex = sub_names(rc(t['e'], t['tys']), t['names'])
+        t['c'] = ex
+        body += (f'static void t{n}(void) {{\n{decl}  unsigned long r = (unsigned long)({ex});\n  int sz = (int)sizeof({ex});\n'
+                 f'  printf("{n} %lu %d", r, sz);\n'
+                 + ''.join(f'  printf(" %lu", (unsigned long)v{k});\n' for k in range(3))
+                 + ''.join(f'  printf(" %lu", (unsigned long)s.{pth});\n' for pth in leaves_c)
+                 + ''.join(f'  printf(" %lu", (unsigned long)a[{k}]);\n' for k in range(4))
+                 + '  printf("\\n");\n}\n')
+    main = 'int main(void) {\n' + ''.join(f'  t{n}();\n' for n in range(len(final))) + '  return 0;\n}\n'
+    src = os.path.join(ctx.scratch, 'lvnests.c')
+    open(src, 'w').write('int printf(const char *, ...);\n' + PRELUDE.split('\n', 2)[2] + lv_struct_decls() + body + main)
+    rc_c = compile_run([ctx.cc, '-o', src + '.chibi', src], src + '.chibi')
+    rc_g = compile_run(['gcc', '-std=c11', '-w', '-O0', '-o', src + '.gcc', src], src + '.gcc')
+    for pth in (src + '.chibi', src + '.gcc'):
+        if os.path.exists(pth):
+            os.unlink(pth)
+    if rc_g[0] is None:
+        corr.disagreements.append({'kind': 'gcc', 'note': 'gcc rejected the lvalue-nest program: ' + str(rc_g[1])})
+        return
+    if rc_c[0] is None:
+        corr.violations.append({'what': 'chibicc fails on the lvalue-nest program', 'input': open(src).read()[:1500], 'expected': 'compiles',
+                                'got': rc_c[1]})
+        return
+    for n, t in enumerate(final):
+        corr.evaluations += 1
+        corr.count('lvalue-nest-oracle')
+        desc = (f"{'; '.join(f'{CNAME[ty]} v{k} = {v}' for k, (ty, v) in enumerate(zip(t['vt'], t['vals'][:3])))}; struct LS0 s, "
+                f"{CNAME[t['et']]} a[4] (values {t['vals'][3:]}), p = &s, q = a + 1: {t['c']}")
+        corr.nontrivial.add('lvn:' + hashlib.sha1(desc.encode()).hexdigest())
+        if rc_g[0].get(n) != t['want']:
+            corr.disagreements.append({'kind': 'spec-vs-gcc', 'input': desc, 'spec': t['want'], 'gcc': rc_g[0].get(n),
+                                       'note': 'expression over member / subscript / dereference lvalues: Spec disagrees with gcc'})
+            return
+        if rc_c[0].get(n) != t['want']:
+            corr.violations.append({'what': 'expression over member / subscript / dereference lvalues: chibicc differs from C11 (fields: value '
+                                            'mod 2^64, sizeof, v0..v2, the 12 scalar members of s, a[0..3] afterwards)',
+                                    'input': desc, 'expected': t['want'], 'got': rc_c[0].get(n)})
+            return
+
+def rename_vars(e, pick):
+    f = lambda i: pick[i]
+    if e[0] == 'V':
+        return ('V', f(e[1]))
+    if e[0] in ('SET', 'PREINC', 'PREDEC', 'POSTINC', 'POSTDEC'):
+        return (e[0], f(e[1])) + tuple(rename_vars(x, pick) if isinstance(x, tuple) else x for x in e[2:])
+    if e[0] == 'OPSET':
+        return ('OPSET', e[1], f(e[2])) + tuple(rename_vars(x, pick) if isinstance(x, tuple) else x for x in e[3:])
+    return tuple(rename_vars(x, pick) if isinstance(x, tuple) else x for x in e)
+
 # ------------------------------------------------------------------ leg (c): X86 model vs CPU
 
 REGVALS = [0, 1, 2, 3, 5, 7, 8, 15, 16, 31, 32, 33, 63, 64, 65, 0x7f, 0x80, 0x81, 0xff, 0x100, 0x7fff, 0x8000, 0xffff, 0x10000,
@@ -1710,6 +1966,8 @@ def correspond(ctx, corr):
         check_pointer_text(ctx, corr)
     if not corr.disagreements:
         check_lvalues(ctx, corr, 400 if not ctx.thorough else 6000)
+    if not corr.disagreements:
+        check_lvalue_nests(ctx, corr, 400 if not ctx.thorough else 6000)
     check_cpu(ctx, corr, 60 if not ctx.thorough else 1500)
     if corr.disagreements:
         return
@@ -1725,6 +1983,7 @@ def correspond(ctx, corr):
     run_pointers(ctx, corr, 2 if not ctx.thorough else 20)
     run_pointer_scaling(ctx, corr, 2 if not ctx.thorough else 40)
     run_lvalue_oracle(ctx, corr, 1500 if not ctx.thorough else 30000)
+    run_lvalue_nests(ctx, corr, 1500 if not ctx.thorough else 30000)
     corr.extra['exhaustive_subspace'] = ('operators x 9x9 operand type pairs x ' + ('all boundary x boundary value pairs' if ctx.thorough else 'sampled boundary/random value pairs') + '; 81 cast pairs and 4 unary operators x all boundary values; every instruction sequence of the model on the CPU')
 
 def search(ctx, broken, corr):
@@ -1737,6 +1996,7 @@ def search(ctx, broken, corr):
     run_pointers(ctx, c2, 6)
     run_pointer_scaling(ctx, c2, 8)
     run_lvalue_oracle(ctx, c2, 6000)
+    run_lvalue_nests(ctx, c2, 6000)
     corr.evaluations += c2.evaluations
     for v in c2.violations:
         if not v.get('known_id'):
